@@ -283,3 +283,106 @@ Proof. apply parse_string_quote, unescape_serde_escape. Qed.
 
 Lemma json_string_body_serde s : json_string_body (serde_escape s).
 Proof. unfold json_string_body. rewrite unescape_serde_escape. discriminate. Qed.
+
+(* ---------- one-step equations of the mutually recursive parser ---------- *)
+Section ParserEquations.
+  Variable f : text -> option Z.
+
+  Lemma parse_value_eq fu depth t :
+    parse_value f (S fu) depth t =
+    match skip_ws t with
+    | [] => None
+    | c :: r =>
+        if N.eqb c c_quote then
+          match lex_string r with Some (s, r') => Some (JStr s, r') | None => None end
+        else if N.eqb c c_lbracket then
+          match depth with
+          | O => None
+          | S d =>
+              match skip_ws r with
+              | c2 :: r2 =>
+                  if N.eqb c2 c_rbracket then Some (JArr [], r2)
+                  else match parse_elems f fu d r with
+                       | Some (l, r') => Some (JArr l, r')
+                       | None => None
+                       end
+              | [] => None
+              end
+          end
+        else if N.eqb c c_lbrace then
+          match depth with
+          | O => None
+          | S d =>
+              match skip_ws r with
+              | c2 :: r2 =>
+                  if N.eqb c2 c_rbrace then Some (JObj [], r2)
+                  else match parse_members f fu d r [] with
+                       | Some (l, r') => Some (JObj l, r')
+                       | None => None
+                       end
+              | [] => None
+              end
+          end
+        else if starts_with (T "true") (c :: r) then Some (JBool true, skipn 4 (c :: r))
+        else if starts_with (T "false") (c :: r) then Some (JBool false, skipn 5 (c :: r))
+        else if starts_with (T "null") (c :: r) then Some (JNull, skipn 4 (c :: r))
+        else
+          match lex_number (c :: r) with
+          | Some (n, r') =>
+              match number_value f n with Some v => Some (v, r') | None => None end
+          | None => None
+          end
+    end.
+  Proof. reflexivity. Qed.
+
+  Lemma parse_elems_eq fu depth t :
+    parse_elems f (S fu) depth t =
+    match parse_value f fu depth t with
+    | None => None
+    | Some (v, r) =>
+        match skip_ws r with
+        | c :: r' =>
+            if N.eqb c c_comma then
+              match parse_elems f fu depth r' with
+              | Some (l, r'') => Some (v :: l, r'')
+              | None => None
+              end
+            else if N.eqb c c_rbracket then Some ([v], r')
+            else None
+        | [] => None
+        end
+    end.
+  Proof. reflexivity. Qed.
+
+  Lemma parse_members_eq fu depth t acc :
+    parse_members f (S fu) depth t acc =
+    match skip_ws t with
+    | q :: r0 =>
+        if N.eqb q c_quote then
+          match lex_string r0 with
+          | None => None
+          | Some (k, r1) =>
+              match skip_ws r1 with
+              | col :: r2 =>
+                  if N.eqb col c_colon then
+                    match parse_value f fu depth r2 with
+                    | None => None
+                    | Some (v, r3) =>
+                        let acc' := assoc_set k v acc in
+                        match skip_ws r3 with
+                        | c :: r4 =>
+                            if N.eqb c c_comma then parse_members f fu depth r4 acc'
+                            else if N.eqb c c_rbrace then Some (acc', r4)
+                            else None
+                        | [] => None
+                        end
+                    end
+                  else None
+              | [] => None
+              end
+          end
+        else None
+    | [] => None
+    end.
+  Proof. reflexivity. Qed.
+End ParserEquations.
